@@ -506,15 +506,21 @@ def listed_nodes(struct):
 
 
 def stale_group_parent(struct) -> bool:
-    """some operation with a group relation sits in a layer of its graph that is not the layer below its CURRENT latest member
-    (it was hung when another member ended latest); nested composites included."""
+    """some operation with a group relation hangs, in its graph, under a node that is not its CURRENT latest member (it was hung when
+    another member ended latest — or tied and came first); nested composites included."""
     a = progs.api()
-    layer = {}
-    for d, nodes in enumerate(struct._circuit_graph.get_branch_iterator()):
-        for n in nodes:
-            op = getattr(n, 'operation', None)
-            if op is not None:
-                layer[id(op)] = d
+    parent = {}
+    layers = list(struct._circuit_graph.get_branch_iterator())
+    for d in range(1, len(layers)):
+        for p in layers[d - 1]:
+            try:
+                nxt = p.get_next_pointers()
+            except Exception:   # noqa
+                nxt = []
+            for n in nxt:
+                op = getattr(n, 'operation', None)
+                if op is not None and id(op) not in parent:
+                    parent[id(op)] = getattr(p, 'operation', None)
     for o in graph_nodes(struct):
         lk = o.relation_link
         if isinstance(lk, a.MultiRelationLink) and getattr(lk, '_reference_nodes', None):
@@ -522,7 +528,7 @@ def stale_group_parent(struct) -> bool:
                 ref = lk.reference_node
             except RecursionError:
                 ref = None
-            if ref is not None and id(ref) in layer and layer[id(o)] != layer[id(ref)] + 1:
+            if ref is not None and id(o) in parent and parent[id(o)] is not None and parent[id(o)] is not ref:
                 return True
         if isinstance(o, a.CircuitCompositeOperation) and stale_group_parent(o):
             return True
